@@ -101,6 +101,8 @@ pub struct Sweep {
     pub tag: String,
     pub child_args: Vec<String>,
     pub extra_env: Vec<(String, String)>,
+    /// false: the child runs over whatever the root already holds
+    pub fresh: bool,
 }
 
 pub struct CrashRun {
@@ -137,6 +139,7 @@ impl Sweep {
             tag: tag.to_string(),
             child_args,
             extra_env: Vec::new(),
+            fresh: true,
         }
     }
 
@@ -181,7 +184,7 @@ impl Sweep {
     pub fn count_calls(&self) -> Result<u64, String> {
         let count = self.side("count");
         let _ = std::fs::remove_file(&count);
-        let (code, tail) = self.run_child(&[("VSHIM_COUNT", count.display().to_string())], true)?;
+        let (code, tail) = self.run_child(&[("VSHIM_COUNT", count.display().to_string())], self.fresh)?;
         if code != 0 {
             return Err(format!("fault-free child run exited {code}: {tail}"));
         }
@@ -204,7 +207,7 @@ impl Sweep {
         let _ = std::fs::remove_file(&synced);
         let (code, tail) = self.run_child(
             &[("VSHIM_CRASH_AT", n.to_string()), ("VSHIM_SYNCED", synced.display().to_string())],
-            true,
+            self.fresh,
         )?;
         if code != 77 {
             return Err(format!("child did not crash at call {n} (exit {code}): {tail}"));
@@ -250,7 +253,7 @@ impl Sweep {
 
     /// Make the n-th watched call fail once with `errno`; the child runs on.
     pub fn fail_at(&self, n: u64, errno: i32) -> Result<CrashRun, String> {
-        let (code, tail) = self.run_child(&[("VSHIM_FAIL_AT", format!("{n},{errno}"))], true)?;
+        let (code, tail) = self.run_child(&[("VSHIM_FAIL_AT", format!("{n},{errno}"))], self.fresh)?;
         let acks = Acks::parse(&self.side("acks"));
         Ok(CrashRun {
             root: self.root(),
